@@ -8,7 +8,7 @@ from xml.dom import Node
 from . import core, corpus, mktree, proj, tok
 from .proj import NONE, dec, enc
 
-DEFECTS = ["walker-legacy-void-names", "etree-clark-empty-part"]
+DEFECTS = ["walker-legacy-void-names", "etree-clark-empty-part", "etree-clark-raw-name"]
 
 
 # ------------------------------------------------------------------------------------------------
@@ -182,6 +182,9 @@ W_PIECES = ["<div>", "</div>", "<p>", "</p>", "<span id=a>", "</span>", "<br>", 
             "<script>", "</script>", "<a href=x>", "</a>", "<b>", "</b>", "<i>", "</i>", "<select>", "<option>", "</select>",
             "<ul>", "<li>", "</ul>", "<h1>", "</h1>", "<x-y z:w=1>", "<p {}y=1>", "<p {x}=2>", "<p {x}y=3>", "<{}q>",
             "<html xml:lang=a lang=b>", "<body a:x=1 b:x=2 x=3>", "<body lang=c xml:lang=d>", "<p xml:lang=e lang=f>",
+            # metacharacters of the internal name encodings ('{', '}', ':') inside element and attribute names
+            "<a}b>", "</a}b>", "<a}>", "<h{{level}}>", "</h{{level}}>", "<my-{{kind}}-w x}y=1>", "<svg><g}>", "<rect}x w}=1 {a}b}c=2/>",
+            "<math><m{i}:j>", "<x:{y}z p:{q}=r>", "<p a}b=1 c:}d=2 }=3 {{e}}=4>", "<b {u}v}w=1 {u:v}w=2>", "<i a:{}b=1 :=2 }{=3>",
             "<frameset>", "<frame>", "</frameset>", "<body a=b>", "<html c=d>", "<head>", "</head>", "</body>", "</html>",
             "\x00", "\U0001f600", "\ud800", "é"]
 W_HEADS = ["", "", "<!DOCTYPE html>", "<!doctype html public \"-//W3C//DTD HTML 4.01//EN\" \"http://www.w3.org/TR/html4/strict.dtd\">",
@@ -191,8 +194,11 @@ W_TAILS = ["", "", "<!--after-->", "</html><!--x--> ", "</body> <!--y-->z", "</h
 WITNESS = {
     "walker-legacy-void-names": "<event-source>x</event-source>",
     "etree-clark-empty-part": "<p {}y=1>",
+    "etree-clark-raw-name": "<p {x}y=1>",
 }
 ADVERSARIAL = [
+    "<a}b>x</a}b><h{{level}} class={{c}}>y</h{{level}}>", "<svg><g}><rect}x width=1 a}b=2 /></g}></svg>",
+    "<math><m{i} x}y=1 {z}w}v=2>t</m{i}>", "<p {x}y}z=1 a:{b}=2 c}=3>", "<html x}y=1><body {p}q=2><a:b} c:d}=3>",
     "<html xml:lang=en lang=en-GB>", "<p>first</p><body lang=fr xml:lang=fr-CA a:x=1 b:x=2><p>second",
     "<html a:x=1><html b:x=2 x=3><body x:href=4><body href=5 xlink:href=6>", "<p xml:lang=en lang=de a:x=1 b:x=2>",
     "<event-source>x</event-source>", "<event-source><b>y</b> z</event-source>w", "<event-source></event-source>", "<command>x",
